@@ -417,7 +417,12 @@ fn flow_step(rt: &tokio::runtime::Runtime, storage: &Arc<RecStorage>, dir: &Path
     if std::fs::create_dir_all(&cwd).is_err() || std::fs::create_dir_all(&bin).is_err() {
         return Sx::sym("err");
     }
-    let exe = bin.join(OsStr::from_bytes(st.arg(0).bytes()));
+    // The file is named like a compiler sccache knows by name (`is_known_c_compiler`): for any other name the
+    // detection first tries `<exe> -vV` (is it a rustc driver?), which would eat the one scripted probe answer.
+    // Apple's clang is installed as `clang` / `clang++`, so the `apple-` of the detected kind is not part of the name.
+    let exe_name = st.arg(0).bytes();
+    let exe_name = exe_name.strip_prefix(b"apple-").unwrap_or(exe_name);
+    let exe = bin.join(OsStr::from_bytes(exe_name));
     if std::fs::write(&exe, b"\x7fELF-one-binary").is_err() || std::fs::write(cwd.join("foo.c"), b"int x;\n").is_err() {
         return Sx::sym("err");
     }
